@@ -100,11 +100,25 @@ int main(int argc, char** argv) {
          if ((configs % 97) == 1) vf::sample(cfg.text() + ": every subset of the arguments x value domain x all spellings x both orders");
       }
    }
-   // ---- k = 3 (thorough): 4 unordered triples in definition order and reversed, 4 destination kinds
-   if (th) {
-      for (int skip = 0; skip < 4; ++skip) for (int rev = 0; rev < 2; ++rev) for (int kkm = 0; kkm < 27; ++kkm) for (Kind k0 : few_kinds) for (Kind k1 : few_kinds) for (Kind k2 : few_kinds) for (int abbr = 0; abbr < 2; ++abbr) {
+   // ---- k = 3, the prefix triple (both tiers): the key 'in' defined AFTER the two keys that extend it (input, inc), in both orders of those two;
+   //      the exact key must still designate its own argument
+   {
+      const Kind two_kinds[] = {FLAG, INT};
+      for (int ord = 0; ord < 2; ++ord) for (int kkm = 0; kkm < 27; ++kkm) for (Kind k0 : two_kinds) for (Kind k1 : two_kinds) for (Kind k2 : two_kinds) for (int abbr = 0; abbr < 2; ++abbr) {
          if (!vf::want_case()) continue;
-         Cfg cfg; cfg.abbr = abbr != 0; std::vector<int> ts; for (int t = 0; t < 4; ++t) if (t != skip) ts.push_back(t); if (rev) std::reverse(ts.begin(), ts.end());
+         Cfg cfg; cfg.abbr = abbr != 0; std::vector<int> ts = ord ? std::vector<int>{2, 0, 1} : std::vector<int>{0, 2, 1};
+         Kind ks[3] = {k0, k1, k2}; int kks[3] = {kkm % 3, kkm / 3 % 3, kkm / 9};
+         for (int j = 0; j < 3; ++j) { Arg a; if (kks[j] != 1) a.sk = TMPL[ts[j]].sk; if (kks[j] != 0) a.lk = TMPL[ts[j]].lk; a.kind = ks[j]; cfg.args.push_back(a); }
+         vf::note(cfg.text()); ++configs;
+         run_config(cfg, true, 2, 0, vf::current_case());
+         vf::nontrivial_by_construction();
+      }
+   }
+   // ---- k = 3 (thorough): 4 unordered triples in definition order, reversed and with the middle key last, 4 destination kinds
+   if (th) {
+      for (int skip = 0; skip < 4; ++skip) for (int rev = 0; rev < 3; ++rev) for (int kkm = 0; kkm < 27; ++kkm) for (Kind k0 : few_kinds) for (Kind k1 : few_kinds) for (Kind k2 : few_kinds) for (int abbr = 0; abbr < 2; ++abbr) {
+         if (!vf::want_case()) continue;
+         Cfg cfg; cfg.abbr = abbr != 0; std::vector<int> ts; for (int t = 0; t < 4; ++t) if (t != skip) ts.push_back(t); if (rev == 1) std::reverse(ts.begin(), ts.end()); if (rev == 2) std::swap(ts[1], ts[2]);
          Kind ks[3] = {k0, k1, k2}; int kks[3] = {kkm % 3, kkm / 3 % 3, kkm / 9};
          for (int j = 0; j < 3; ++j) { Arg a; if (kks[j] != 1) a.sk = TMPL[ts[j]].sk; if (kks[j] != 0) a.lk = TMPL[ts[j]].lk; a.kind = ks[j]; cfg.args.push_back(a); }
          vf::note(cfg.text()); ++configs;
